@@ -175,7 +175,7 @@ func gen(r *hx.Rng, tier string, i int) []hx.Zs {
 	}
 	for len(h) < len(pl.Prefix)+n {
 		p := pl.Peers[r.Intn(len(pl.Peers))]
-		switch r.Pick(40, 14, 16, 6, 8, 8, 3, 3, 2, 3, 3) {
+		switch r.Pick(40, 14, 16, 6, 8, 8, 3, 3, 2, 3, 3, 4) {
 		case 0: // subscribe
 			var cli stack.FAddr
 			if r.Chance(5, 6) {
@@ -265,6 +265,36 @@ func gen(r *hx.Rng, tier string, i int) []hx.Zs {
 			h = append(h, stack.OpDiscoveryNotify(p.Ski, next(p.Ski), r.Bool(), p.MixedNotify(r)), stack.OpListSubs(p.Ski))
 		case 10: // a further discovery reply that omits entities announced before (and sometimes [0])
 			h = append(h, stack.OpDiscoveryReply(p.Ski, p.PartialReply(r)), stack.OpListSubs(p.Ski))
+		case 11: // a teardown of p overlapped by a subscribe / delete call of another peer q
+			var q stack.Peer
+			found := false
+			for _, c := range pl.Peers {
+				if c.Ski != p.Ski && connected[c.Ski] {
+					q, found = c, true
+				}
+			}
+			if !found || !connected[p.Ski] {
+				break
+			}
+			lf := pl.Local[r.Intn(len(pl.Local))]
+			// p gets something to lose first
+			h = append(h, stack.OpSubCall(p.Ski, next(p.Ski), r.Bool(), p.Addr(p.Feats[r.Intn(len(p.Feats))], true), lf.Addr(true), lf.Type+1))
+			qc := call{q.Ski, q.Addr(q.Feats[r.Intn(len(q.Feats))], true), lf.Addr(true)}
+			var c hx.Zs
+			if r.Chance(2, 3) {
+				calls = append(calls, qc)
+				c = stack.OpSubCall(q.Ski, next(q.Ski), r.Bool(), qc.cli, qc.srv, lf.Type+1)
+			} else {
+				c = stack.OpSubDelete(q.Ski, next(q.Ski), r.Bool(), qc.cli, qc.srv)
+			}
+			var td hx.Zs
+			if r.Bool() || len(p.Ents) < 2 {
+				td = stack.OpDisconnect(p.Ski)
+				connected[p.Ski] = false
+			} else {
+				td = stack.OpDiscoveryNotify(p.Ski, next(p.Ski), r.Bool(), p.Msg(2, [][]int64{p.Ents[1+r.Intn(len(p.Ents)-1)]}))
+			}
+			h = append(h, stack.OpDuring(td, c), stack.OpListSubs(q.Ski), stack.OpListSubs(p.Ski))
 		case 7: // entity removed / re-added
 			if len(p.Ents) > 1 {
 				e := p.Ents[1+r.Intn(len(p.Ents)-1)]
